@@ -423,6 +423,18 @@ class TopoRunner:
                 (k, v), = kw.items()
                 h.set_property(k, v)
             return none
+        if op == "SetProps":
+            self.need(o["p"])
+            h = self.elem(o["p"], persistent=True)
+            kw = {}
+            for it in o["items"]:
+                kw.update(self._rp_kwargs({it["pname"]: it["val"]}))
+            if o["bad"] == "unknown":
+                kw["mtu"] = 9000                              # no such settable property (kwargs keep their order: last)
+            elif o["bad"] == "type":
+                kw["capacity_allocations"] = "10G"            # a string where a Capacities object is required
+            h.set_properties(**kw)
+            return none
         if op == "UnsetProp":
             self.need(o["p"])
             pn = {"Capacities": "capacities", "Labels": "labels", "ReservationInfo": "reservation_info", "Site": "site"}[o["pname"]]
